@@ -587,7 +587,12 @@ impl FileSystem for MockFs {
             return Err(e);
         }
         match &self.res {
-            MockRes::Data(d) => Ok(GetxattrReply::Value(d.clone())),
+            MockRes::Data(d) => {
+                // a sound fs never returns more than the client has room for
+                let v = d[..d.len().min(size as usize)].to_vec();
+                *self.produced.lock().unwrap() = v.clone();
+                Ok(GetxattrReply::Value(v))
+            }
             MockRes::Count(c) => Ok(GetxattrReply::Count(*c)),
             _ => Ok(GetxattrReply::Count(0)),
         }
@@ -598,7 +603,11 @@ impl FileSystem for MockFs {
             return Err(e);
         }
         match &self.res {
-            MockRes::Data(d) => Ok(ListxattrReply::Names(d.clone())),
+            MockRes::Data(d) => {
+                let v = d[..d.len().min(size as usize)].to_vec();
+                *self.produced.lock().unwrap() = v.clone();
+                Ok(ListxattrReply::Names(v))
+            }
             MockRes::Count(c) => Ok(ListxattrReply::Count(*c)),
             _ => Ok(ListxattrReply::Count(0)),
         }
@@ -783,10 +792,14 @@ impl FileSystem for MockFs {
             return Err(e);
         }
         match &self.res {
-            MockRes::Ioctl { result, data } => Ok(IoctlData {
-                result: *result,
-                data: if data.is_empty() { None } else { Some(&data[..]) },
-            }),
+            MockRes::Ioctl { result, data } => {
+                let n = data.len().min(out_size as usize);
+                *self.produced.lock().unwrap() = data[..n].to_vec();
+                Ok(IoctlData {
+                    result: *result,
+                    data: if n == 0 { None } else { Some(&data[..n]) },
+                })
+            }
             _ => Ok(IoctlData { result: 0, data: None }),
         }
     }
